@@ -236,19 +236,20 @@ def handle (w : World) (line : String) : World × String :=
     match (kv toks "base").bind unhex with
     | some b => let (w', _) := step w (.removeFamily b); (w', "ok")
     | none => (w, "bad-op")
-  | "hammer" :: toks =>
-    -- `arms` times: release the latch of the (stale, latched) entry, then any number of lookups:
-    -- by `refresh_only_when_none_in_flight` exactly one of them asks for a refresh
-    match (kv toks "t").bind intOf, (kv toks "key").bind unhex, (kv toks "arms").bind natOf with
-    | some t, some k, some arms =>
-      let round (acc : World × Nat) : World × Nat :=
-        let (w1, _) := step acc.1 (.refreshDone t k)
-        let (w2, rs) := run w1 (List.replicate 3 (.lookup t k false))
-        let n := (rs.filter fun r => match r with | .hit s => s.refresh | .miss => false).length
-        (w2, if n = 1 then acc.2 else acc.2 + 1)
-      let (w', bad) := (List.range (min arms 50)).foldl (fun acc _ => round acc) (w, 0)
-      (w', s!"hammer releases={arms} extra_refresh_requests={bad}")
-    | _, _, _ => (w, "bad-op")
+  | "hammer" :: _ =>
+    -- self-contained: an entry that expired before it was stored, unbounded stale window; first lookup
+    -- latches it; then 50 times: release the latch (`refreshDone`), three lookups — by
+    -- `refresh_only_when_none_in_flight` exactly one of them asks for a refresh.  The world is unchanged.
+    let c := Cfg.normalize true 0 1 []
+    let k : Key := ['h']
+    let (w0, _) := run ⟨c, State.empty⟩ [.insert 1000 k ['h'] 1 (-1000) 77 1 0 false, .lookup 1000 k false]
+    let round (acc : World × Nat) : World × Nat :=
+      let (w1, _) := step acc.1 (.refreshDone 1000 k)
+      let (w2, rs) := run w1 (List.replicate 3 (.lookup 1000 k false))
+      let n := (rs.filter fun r => match r with | .hit s => s.refresh | .miss => false).length
+      (w2, if n = 1 then acc.2 else acc.2 + 1)
+    let (_, bad) := (List.range 50).foldl (fun acc _ => round acc) (w0, 0)
+    (w, s!"hammer extra_refresh_requests={bad}")
   | "note" :: _ => (w, "note")
   | ["keys"] => (w, "keys=" ++ keysStr (w.st.entries.map (·.1)))
   | "heap" :: toks =>
